@@ -6,7 +6,8 @@
 //!        3 MinidumpUnloadedModuleList     4 FUNC records   41 STACK CFI INIT records
 //!        5 line records of one FUNC    13-17 Memory64 / Unified* views    18 MinidumpModuleList::read (stream bytes)
 //!        19 MinidumpUnloadedModuleList::read (stream bytes)   21 / 22 MinidumpMemoryList / MinidumpMemory64List ::read (stream bytes)
-//!           42/43 STACK WIN frame-data / FPO tables
+//!        23 MinidumpLinuxMaps::read on hostile address-field spellings (incl. values past 2^64)
+//!        42/43 STACK WIN frame-data / FPO tables
 use minidump::*;
 use minidump_common::traits::IntoRangeMapSafe;
 use range_map::Range;
@@ -282,6 +283,30 @@ fn run(line: &str) -> String {
             }
             for &q in &qs {
                 gets.push(list.memory_at_address(q).map(|r| vec![pos(r).to_string()]).unwrap_or_default());
+            }
+        }
+        23 => {
+            // MinidumpLinuxMaps::read on hostile address fields: entries are (lo, hi, form); form 0: lower-case hex,
+            // form 1: leading '+', upper case / leading zeros (from_str_radix takes them), form 2: lo + 2^64 written with
+            // 17 hex digits (does not fit a u64: the line parser fails and the read is Err: ERR;;)
+            let mut text = String::new();
+            for (i, &(lo, hi, v)) in ents.iter().enumerate() {
+                let addr = match v {
+                    0 => format!("{:x}-{:x}", lo, hi),
+                    1 => format!("+{:X}-{:018x}", lo, hi),
+                    _ => format!("1{:016x}-{:x}", lo, hi),
+                };
+                text.push_str(&format!("{} r-xp 00000000 00:00 {} /m{}\n", addr, i, i));
+            }
+            let list = match MinidumpLinuxMaps::read(text.as_bytes(), text.as_bytes(), scroll::LE, None) {
+                Ok(l) => l,
+                Err(_) => return "ERR;;".to_string(),
+            };
+            for r in list.by_addr() {
+                table.push(format!("{}-{}:{}", r.map.address.0, r.map.address.1, r.map.inode));
+            }
+            for &q in &qs {
+                gets.push(list.memory_info_at_address(q).map(|r| vec![r.map.inode.to_string()]).unwrap_or_default());
             }
         }
         13 | 14 | 15 => {
